@@ -57,6 +57,14 @@ pub enum Op {
     Dec { pos: u8, part: Part, v2: bool },
     Swap { a_to_b: bool, exact_in: bool, amount: u64, lim: Lim, v2: bool },
     Update { pos: u8 },
+    /// reposition_liquidity_v2: move the position to [lower, upper) with the given new liquidity
+    Repos {
+        pos: u8,
+        lower: i32,
+        upper: i32,
+        #[serde(with = "u128_str")]
+        liq: u128,
+    },
     CollectFees { pos: u8, v2: bool },
     CollectProtocol { v2: bool },
     Clock(i64),
@@ -151,7 +159,7 @@ pub fn resolve_limit(l: &Ledger, p: &PoolRef, a_to_b: bool, lim: Lim) -> u128 {
 /// Build the instruction for an op in the given state (None = op not applicable, e.g. Dec of an empty position).
 pub fn build(l: &Ledger, w: &StdWorld, op: &Op) -> Option<Instruction> {
     let pos_of = |op: &Op| match op {
-        Op::Inc { pos, .. } | Op::Dec { pos, .. } | Op::Update { pos } | Op::CollectFees { pos, .. } | Op::CollectReward { pos, .. } => Some(*pos),
+        Op::Inc { pos, .. } | Op::Dec { pos, .. } | Op::Update { pos } | Op::CollectFees { pos, .. } | Op::CollectReward { pos, .. } | Op::Repos { pos, .. } => Some(*pos),
         _ => None,
     };
     if let Some(p) = pos_of(op) {
@@ -170,9 +178,10 @@ pub fn build(l: &Ledger, w: &StdWorld, op: &Op) -> Option<Instruction> {
         o => o,
     };
     match op {
-        Op::Inc { pos, liq, v2 } => Some(world::ix_increase(&w.positions[*pos as usize], &w.lp, *liq, u64::MAX, u64::MAX, *v2)),
+        Op::Inc { pos, liq, v2 } => Some(world::ix_increase(&w.positions[*pos as usize].at(l), &w.lp, *liq, u64::MAX, u64::MAX, *v2)),
+        Op::Repos { pos, lower, upper, liq } => Some(world::ix_reposition_v2(&w.positions[*pos as usize].at(l), &w.lp, w.funder, *lower, *upper, *liq, 0, 0, u64::MAX, u64::MAX)),
         Op::Dec { pos, part, v2 } => {
-            let p = &w.positions[*pos as usize];
+            let p = &w.positions[*pos as usize].at(l);
             let cur = p.state(l).liquidity;
             let amt = match part {
                 Part::All => cur,
@@ -196,8 +205,8 @@ pub fn build(l: &Ledger, w: &StdWorld, op: &Op) -> Option<Instruction> {
             let tas = world::swap_tick_arrays(&w.pool, st.tick_current_index, *a_to_b);
             Some(world::ix_swap(&w.pool, &w.trader, a, tas, *v2, &[]))
         }
-        Op::Update { pos } => Some(world::ix_update_fees_and_rewards(&w.positions[*pos as usize])),
-        Op::CollectFees { pos, v2 } => Some(world::ix_collect_fees(&w.positions[*pos as usize], &w.lp, *v2)),
+        Op::Update { pos } => Some(world::ix_update_fees_and_rewards(&w.positions[*pos as usize].at(l))),
+        Op::CollectFees { pos, v2 } => Some(world::ix_collect_fees(&w.positions[*pos as usize].at(l), &w.lp, *v2)),
         Op::CollectProtocol { v2 } => Some(world::ix_collect_protocol_fees(
             &w.pool,
             w.cfg.collect_protocol_fees_authority,
